@@ -3,7 +3,7 @@ PROP = {'engine': 'stack',
  'test': 'TestC06',
  'level': 'exploration',
  'quick': {'checks': 200, 'shards': 12, 'timeout': 900},
- 'thorough': {'checks': 2500, 'shards': 14, 'timeout': 3000},
+ 'thorough': {'checks': 6000, 'shards': 14, 'timeout': 3400},
  'rule': 'fixed part: the product crash point (runtime: during init, after init/error, after next, after response, idle, launch failure; extension: '
          'before register, after register, after init/error, after event, after exit/error, idle, launch failure) x generation (first / after a '
          'failed one) [x exit kind {0, n, signal} x bystander extension {none, INVOKE, INVOKE+SHUTDOWN} in the thorough tier]; random part: 1-2 '
